@@ -5,6 +5,7 @@ from __future__ import annotations
 import itertools
 
 from mc import domains as D
+from mc.alias import Keeper
 from mc.rec import Rec, unhex
 from ref import pus as RP
 from ref.crc16 import crc16
@@ -86,6 +87,13 @@ def shards(tier):
     for bg in range(_kp(tier)):
         items.append({"kind": "lengths", "bg": bg})
     items.append({"kind": "oversize"})
+    for kk in range(_k(tier)):
+        for mode in H_MODES:
+            if tier == "quick":
+                items.append({"kind": "history", "k": kk, "mode": mode, "depth": h_depth(tier)})
+            else:
+                for first in range(len(H_EVENTS)):
+                    items.append({"kind": "history", "k": kk, "mode": mode, "depth": h_depth(tier), "first": first})
     for total in range(12, 6, -1):  # simplest witness first: 12 octets, nothing overlapping
         for part in range(4):
             items.append({"kind": "reject", "total": total, "apid_lo": 512 * part, "apid_hi": 512 * (part + 1), "tier": tier})
@@ -136,7 +144,37 @@ def observe(u):
             int(bool(u.sec_header_flag)), int(u.seq_flags), u.ccsds_version)
 
 
-def check_tc(rec: Rec, f, spec, nontrivial=True, routes=False, deep=True):
+def keep_obs(o):
+    """copying observation of a telecommand object held by the Keeper: every accessor and its octets"""
+    return observe(o)[:7] + (o.sp_header.data_len, o.packet_len, bytes(o.pack()))
+
+
+def keep_view(sp):
+    return bytes(sp.pack())
+
+
+def keep_depth(routes: bool, deep: bool) -> int:
+    """ring size of the Keeper = twice the number of results one vector hands out, so that every result is
+    observed again after the rest of its own script and after the complete script of the next vector"""
+    return 2 * (3 + (2 if deep else 0) + (3 if routes else 0))
+
+
+def keep_hdr(h):
+    return (h.service, h.subservice, h.source_id, int(h.ack_flags), bytes(h.pack()))
+
+
+def check_tc(rec: Rec, f, spec, nontrivial=True, routes=False, deep=True, keeper=None):
+    """one telecommand vector: the fixed script, then (independence clause) everything the library handed out
+    for the previous vectors of the shard is observed again"""
+    case = {"kind": "tc", "f": list(f), "data": list(spec), "routes": bool(routes), "deep": bool(deep)}
+    try:
+        _tc_script(rec, case, f, spec, nontrivial, routes, deep, keeper)
+    finally:
+        if keeper is not None:
+            keeper.recheck(case)
+
+
+def _tc_script(rec: Rec, case, f, spec, nontrivial, routes, deep, keeper):
     """the fixed script of operations for one telecommand vector.  deep: also the generic
     space-packet view (of the original and of the decoded packet) and check_pus_crc - these
     three library calls build a crcmod table each (0.3 ms apiece, 85 % of a case), so the
@@ -148,7 +186,11 @@ def check_tc(rec: Rec, f, spec, nontrivial=True, routes=False, deep=True):
     svc, sub, apid, cnt, src, ack = f
     data = data_of(spec)
     ref = RP.tc(svc, sub, apid, cnt, src, ack, data)
-    case = {"kind": "tc", "f": list(f), "data": list(spec), "routes": bool(routes), "deep": bool(deep)}
+
+    def hold(subject, obj, obs):
+        if keeper is not None:
+            keeper.hold(subject, obj, obs, case)
+
     rec.case(nontrivial, ops=10 + (3 if deep else 0) + (6 if routes else 0))
     if deep:
         rec.count("vectors_with_space_packet_view_and_check_pus_crc")
@@ -166,9 +208,12 @@ def check_tc(rec: Rec, f, spec, nontrivial=True, routes=False, deep=True):
 
     try:
         tc = m.PusTc(svc, sub, apid=apid, app_data=data, seq_count=cnt, source_id=src, ack_flags=ack)
-        raw = bytes(tc.pack())
+        raw_obj = tc.pack()
+        raw = bytes(raw_obj)
     except Exception as e:
         return bad("encode/PusTc.pack/exception/" + type(e).__name__, repr(e), short(ref))
+    hold("PusTc.pack", raw_obj, bytes)
+    hold("PusTc()", tc, keep_obs)
     if raw != ref:
         return bad("encode/PusTc.pack/octets/" + _region(raw, ref), short(raw), short(ref))
     if tc.packet_len != len(ref):
@@ -180,9 +225,11 @@ def check_tc(rec: Rec, f, spec, nontrivial=True, routes=False, deep=True):
         bad("encode/PusTc.pack(recalc_crc=False)-after-pack/octets/" + _region(again, ref), short(again), short(ref))
     if deep:
         try:
-            view = bytes(tc.to_space_packet().pack())
+            sp = tc.to_space_packet()
+            view = bytes(sp.pack())
             if view != ref:
                 bad("view/PusTc.to_space_packet/octets/" + _region(view, ref), short(view), short(ref))
+            hold("PusTc.to_space_packet", sp, keep_view)
         except Exception as e:
             bad("view/PusTc.to_space_packet/exception/" + type(e).__name__, repr(e), None)
         if check_pus_crc(ref) is not True:
@@ -197,15 +244,18 @@ def check_tc(rec: Rec, f, spec, nontrivial=True, routes=False, deep=True):
         name = next(n for n, a, b in zip(OBS, obs, exp) if a != b)
         return bad("decode/PusTc.unpack/field=" + name, [short(x) if isinstance(x, bytes) else x for x in obs],
                    [short(x) if isinstance(x, bytes) else x for x in exp])
+    hold("PusTc.unpack", u, keep_obs)
     if not (u == tc and tc == u):
         bad("inverse/PusTc.unpack/decoded-not-equal-original")
     re = bytes(u.pack())
     if re != ref:
         bad("inverse/unpack-then-pack/octets/" + _region(re, ref), short(re), short(ref))
     if deep:
-        view = bytes(u.to_space_packet().pack())
+        sp = u.to_space_packet()
+        view = bytes(sp.pack())
         if view != ref:
             bad("view/decoded.to_space_packet/octets/" + _region(view, ref), short(view), short(ref))
+        hold("decoded.to_space_packet", sp, keep_view)
     rec.outcome("roundtrip-ok/len%d" % min(len(data), 18))
     if routes:
         try:
@@ -223,6 +273,9 @@ def check_tc(rec: Rec, f, spec, nontrivial=True, routes=False, deep=True):
             sh = m.PusTcDataFieldHeader.unpack(ref[6:])
             if (sh.service, sh.subservice, sh.source_id, int(sh.ack_flags)) != (svc, sub, src, ack) or bytes(sh.pack()) != ref[6:11]:
                 bad("decode/PusTcDataFieldHeader.unpack/fields", (sh.service, sh.subservice, sh.source_id, int(sh.ack_flags)), (svc, sub, src, ack))
+            hold("PusTcDataFieldHeader.unpack", sh, keep_hdr)
+            hold("PusTc.from_sp_header", a, keep_obs)
+            hold("PusTc.from_composite_fields", b, keep_obs)
         except Exception as e:
             bad("encode/alternative-constructors/exception/" + type(e).__name__, repr(e), None)
 
@@ -267,10 +320,202 @@ def looks_pus_c(buf):
     return len(buf) > 6 and buf[6] >> 4 == RP.PUS_C
 
 
+
+# ------------------------------------------------------------------- histories (engine H)
+# One telecommand OBJECT is driven through every sequence of public operations; a plain dict (the model) holds
+# the values last set.  The property speaks about "the packed telecommand" and "the generic space-packet view of
+# the telecommand" for every value of the fields: it holds for the values the object has NOW, however they got
+# there (constructor, decoder, property setter) and whatever was read from the object before.
+H_SET = {
+    "apid": [0x7FF, 0x2AA],
+    "seq_count": [0x3FFF, 0x1555],
+    "source_id": [0xFFFF, 0x00A5],
+    "app_data": [b"", b"\x5a", b"\x01\x02\x03\x04"],  # shorter / as long as / longer than the start values' data
+}
+H_READ = ["pack", "pack(recalc_crc=False)", "calc_crc", "to_space_packet", "decode-another"]
+H_EVENTS = H_READ + ["%s=%d" % (k, i) for k in ("apid", "seq_count", "source_id", "app_data") for i in range(len(H_SET[k]))]
+H_MODES = ["constructed", "decoded", "from_sp_header", "from_composite_fields"]
+H_OTHER = dict(service=0xC3, subservice=0x3C, apid=0x123, seq_count=0x0ABC, source_id=0x1357, ack_flags=0b0110, app_data=b"\xde\xad\xbe\xef\x99")
+H_KEYS = ("service", "subservice", "apid", "seq_count", "source_id", "ack_flags", "app_data")
+_REF_MEMO = {}
+
+
+def h_depth(tier):
+    return 3 if tier == "quick" else 4
+
+
+def h_ref(model) -> bytes:
+    key = tuple(model[k] for k in H_KEYS)
+    r = _REF_MEMO.get(key)
+    if r is None:
+        r = _REF_MEMO[key] = RP.tc(**model)
+    return r
+
+
+def h_start(k):
+    return dict(zip(H_KEYS, background(k) + (BG_DATA[k],)))
+
+
+def h_make(m, mode, model):
+    from spacepackets.ccsds.spacepacket import PacketType, SpacePacketHeader
+
+    v = model
+    if mode == "constructed":
+        return m.PusTc(v["service"], v["subservice"], apid=v["apid"], app_data=v["app_data"], seq_count=v["seq_count"],
+                       source_id=v["source_id"], ack_flags=v["ack_flags"])
+    if mode == "decoded":
+        return m.PusTc.unpack(h_ref(model))
+    if mode == "from_sp_header":
+        return m.PusTc.from_sp_header(SpacePacketHeader(PacketType.TC, v["apid"], v["seq_count"], 0), v["service"], v["subservice"],
+                                      v["app_data"], v["source_id"], v["ack_flags"])
+    if mode == "from_composite_fields":
+        return m.PusTc.from_composite_fields(
+            SpacePacketHeader(PacketType.TC, v["apid"], v["seq_count"], len(h_ref(model)) - 7, True),
+            m.PusTcDataFieldHeader(service=v["service"], subservice=v["subservice"], source_id=v["source_id"], ack_flags=v["ack_flags"]),
+            v["app_data"])
+    raise AssertionError(mode)
+
+
+def h_pure(o):
+    """observations that are plain attribute reads (no cache is filled by making them)"""
+    return observe(o)[:7] + (o.sp_header.data_len, o.packet_len, int(o.packet_type), int(bool(o.sec_header_flag)), int(o.seq_flags), o.ccsds_version)
+
+
+def run_history(rec: Rec, k, mode, events, nontrivial=True):
+    """executes one history on a fresh object; after the start and after every event the pure observations are
+    compared with the model, and what a reading event returns is compared with the reference octets of the model.
+    crc16 is demanded right after the operations documented to (re)calculate it; pack(recalc_crc=False) is judged
+    only while no setter ran since the last calculation (its documented precondition)."""
+    m = _tc()
+    model = h_start(k)
+    rec.case(nontrivial, ops=0)
+    state = {"i": -1, "failed": False}
+
+    def bad(kind, observed=None, expected=None):
+        i = state["i"]
+        state["failed"] = True
+        case = {"kind": "history", "k": k, "mode": mode, "events": list(events[: i + 1])}
+        lines = ["model = %r" % (h_start(k),), "tc = <%s from model>" % mode] + ["tc: " + e for e in events[: i + 1]]
+        rec.violation("C02.history/" + kind, case, observed, expected, repro="; ".join(lines),
+                      note="start values: background %d, start state: %s; setter values: %r; the expected octets are ref/pus.py of the values last set"
+                           % (k, mode, {n: [x.hex() if isinstance(x, bytes) else x for x in vs] for n, vs in H_SET.items()}))
+
+    def short(b):
+        return b if not isinstance(b, (bytes, bytearray)) else bytes(b)[:48]
+
+    def pure(after):
+        ref = h_ref(model)
+        exp = tuple(model[k_] for k_ in H_KEYS) + (len(ref) - 7, len(ref), 1, 1, 3, 0)
+        try:
+            obs = h_pure(o)
+        except Exception as e:
+            return bad("%s/then-accessors/exception/%s" % (after, type(e).__name__), repr(e), None)
+        rec.ops += 1
+        if obs != exp:
+            names = H_KEYS + ("data_len", "packet_len", "packet_type", "sec_header_flag", "seq_flags", "ccsds_version")
+            name = next(n for n, a, b in zip(names, obs, exp) if a != b)
+            return bad("%s/then/field=%s" % (after, name), [short(x) for x in obs], [short(x) for x in exp])
+        twin = m.PusTc(model["service"], model["subservice"], apid=model["apid"], app_data=model["app_data"], seq_count=model["seq_count"],
+                       source_id=model["source_id"], ack_flags=model["ack_flags"])
+        if not (o == twin and twin == o):
+            bad("%s/then/not-equal-to-a-fresh-telecommand-with-the-same-values" % after)
+
+    try:
+        o = h_make(m, mode, model)
+    except Exception as e:
+        return bad("start=%s/exception/%s" % (mode, type(e).__name__), repr(e), None)
+    crc = "fresh" if mode == "decoded" else "none"
+    pure("start=" + mode)
+    if mode == "decoded" and (o.crc16 is None or bytes(o.crc16) != h_ref(model)[-2:]):
+        bad("start=decoded/crc16", o.crc16, h_ref(model)[-2:])
+    for i, ev in enumerate(events):
+        if state["failed"]:
+            break  # simplest witness: the history up to the first deviation
+        state["i"] = i
+        rec.ops += 1
+        ref = h_ref(model)
+        name = "PusTc." + ev.split("=")[0]
+        try:
+            if ev == "pack":
+                out = bytes(o.pack())
+                crc = "fresh"
+                if out != ref:
+                    bad("PusTc.pack/octets/" + _region(out, ref), short(out), short(ref))
+            elif ev == "pack(recalc_crc=False)":
+                out = bytes(o.pack(recalc_crc=False))
+                if crc == "stale":
+                    rec.count("history_pack_without_recalc_on_stale_crc_not_judged")
+                else:
+                    crc = "fresh"
+                    if out != ref:
+                        bad("PusTc.pack(recalc_crc=False)/octets/" + _region(out, ref), short(out), short(ref))
+                name = None
+            elif ev == "calc_crc":
+                o.calc_crc()
+                crc = "fresh"
+            elif ev == "to_space_packet":
+                sp = o.to_space_packet()
+                crc = "fresh"
+                out = bytes(sp.pack())
+                if out != ref:
+                    bad("PusTc.to_space_packet/octets/" + _region(out, ref), short(out), short(ref))
+                elif (sp.apid, sp.seq_count) != (model["apid"], model["seq_count"]):
+                    bad("PusTc.to_space_packet/accessors", (sp.apid, sp.seq_count), (model["apid"], model["seq_count"]))
+            elif ev == "decode-another":
+                # an unrelated telecommand is built, packed, viewed and decoded in between: must not touch this one
+                other_ref = h_ref(H_OTHER)
+                x = m.PusTc(H_OTHER["service"], H_OTHER["subservice"], apid=H_OTHER["apid"], app_data=H_OTHER["app_data"], seq_count=H_OTHER["seq_count"],
+                            source_id=H_OTHER["source_id"], ack_flags=H_OTHER["ack_flags"])
+                y = m.PusTc.unpack(other_ref)
+                if bytes(x.pack()) != other_ref or bytes(y.pack()) != other_ref or bytes(y.to_space_packet().pack()) != other_ref or h_pure(y)[:7] != tuple(H_OTHER[k_] for k_ in H_KEYS):
+                    bad("another-telecommand/octets", short(bytes(y.pack())), short(other_ref))
+                name = None
+            else:
+                field, idx = ev.split("=")
+                val = H_SET[field][int(idx)]
+                setattr(o, field, val)
+                model[field] = val
+                if crc == "fresh":
+                    crc = "stale"
+                name = None
+        except Exception as e:
+            bad("PusTc.%s/exception/%s" % (ev.split("=")[0], type(e).__name__), repr(e), None)
+            break
+        if name is not None and crc == "fresh" and not state["failed"]:
+            c = o.crc16
+            if c is None or bytes(c) != ref[-2:]:
+                bad(name + "/then/crc16", c, ref[-2:])
+        if not state["failed"]:
+            pure("PusTc." + ev.split("=")[0] + ("=" if "=" in ev else ""))
+    rec.outcome("history-end/crc-" + crc)
+
+
+def run_histories(rec: Rec, item):
+    depth, first = item["depth"], item.get("first")
+    n = 0
+    for tail in itertools.product(range(len(H_EVENTS)), repeat=depth - (0 if first is None else 1)):
+        idx = tail if first is None else (first,) + tail
+        run_history(rec, item["k"], item["mode"], [H_EVENTS[i] for i in idx])
+        n += 1
+    rec.count("histories_depth_%d" % depth, n)
+    rec.count("history_events_applied", n * depth)
+    # distinct (start, prefix) pairs = states of the explicit-state exploration rooted at this shard's start
+    if first is None:
+        rec.count("history_states", sum(len(H_EVENTS) ** d for d in range(depth + 1)))
+    else:
+        rec.count("history_states", sum(len(H_EVENTS) ** d for d in range(depth)) + (1 if first == 0 else 0))
+    rec.sample({"history": {"start_values": {k_: (v.hex() if isinstance(v, bytes) else v) for k_, v in h_start(item["k"]).items()}, "start_state": item["mode"],
+                            "events": [H_EVENTS[i] for i in idx], "event_menu": H_EVENTS},
+                "expected": "after every event: accessors, packet_len, == fresh object, and every octet string read = ref/pus.py of the values last set"}, limit=1)
+
+
 # ------------------------------------------------------------------------------ shards
 def run_shard(item):
     rec = Rec(PROPERTY, item)
     kind = item["kind"]
+    keeper = None
+    if kind in ("sweep", "edge", "payload", "lengths"):
+        keeper = Keeper(rec, PROPERTY, depth=keep_depth(kind in ("edge", "lengths"), bool(item.get("all_deep")) or kind == "lengths"))
     if kind == "sweep":
         axis = item["axis"]
         n = BITS[axis]
@@ -281,7 +526,7 @@ def run_shard(item):
             for v in range(item["lo"], item["hi"]):
                 f = bg[:axis] + (v,) + bg[axis + 1:]
                 deep = item["all_deep"] or n <= 11 or v % 17 == 0 or v in walk
-                check_tc(rec, f, spec, nontrivial=not (v == bg[axis] and axis > 0), deep=deep)
+                check_tc(rec, f, spec, nontrivial=not (v == bg[axis] and axis > 0), deep=deep, keeper=keeper)
         rec.count("sweep_values_" + AXES[axis], item["hi"] - item["lo"])
     elif kind == "edge":
         e = [D.edge(n) for n in BITS]
@@ -289,7 +534,7 @@ def run_shard(item):
         for j in item["j"]:
             for a, b, c, d in itertools.product(range(8), repeat=4):
                 deep = item["all_deep"] or (item["i"] + j + a + b + c + d) % 8 == 0
-                check_tc(rec, (e[0][item["i"]], e[1][j], e[2][a], e[3][b], e[4][c], e[5][d]), ("hex", EDGE_DATA.hex()), routes=True, deep=deep)
+                check_tc(rec, (e[0][item["i"]], e[1][j], e[2][a], e[3][b], e[4][c], e[5][d]), ("hex", EDGE_DATA.hex()), routes=True, deep=deep, keeper=keeper)
                 n += 1
         rec.count("edge_product_vectors", n)
     elif kind == "payload":
@@ -299,15 +544,17 @@ def run_shard(item):
         lo, hi = len(allb) * item["part"] // item["parts"], len(allb) * (item["part"] + 1) // item["parts"]
         for d in allb[lo:hi]:
             deep = item["all_deep"] or len(d) <= 1 or (d[0] + d[1]) % 16 == 0
-            check_tc(rec, bg, ("hex", d.hex()), nontrivial=d != BG_DATA[k], deep=deep)
+            check_tc(rec, bg, ("hex", d.hex()), nontrivial=d != BG_DATA[k], deep=deep, keeper=keeper)
         rec.count("payloads_len<=2", hi - lo)
     elif kind == "lengths":
         k = item["bg"]
         bg = background(k)
         for L in LENGTHS:
             for idx in range(len(D.shaped(L))):
-                check_tc(rec, bg, ("shaped", L, idx), nontrivial=L > 2, routes=True)
+                check_tc(rec, bg, ("shaped", L, idx), nontrivial=L > 2, routes=True, keeper=keeper)
                 rec.count("shaped_payloads")
+    elif kind == "history":
+        run_histories(rec, item)
     elif kind == "oversize":
         for L in OVERSIZE:
             for idx in range(len(D.shaped(L))):
@@ -351,6 +598,8 @@ def run_shard(item):
                 rec.count("reject_solved_packets")
                 rec.sample({"forged_packet_declaring_total_len": total, "octets": pkt.hex(), "note": "sequence control word solved so that the trailer reads as PUS-C",
                             "followed_by_each_of": [t.hex() for t in TAILS], "expected": "PusTc.unpack raises"}, limit=1)
+    if keeper is not None:
+        keeper.flush()
     return rec.result()
 
 
@@ -359,6 +608,8 @@ def replay(case):
     case = unhex(case)
     if case["kind"] == "tc":
         check_tc(rec, tuple(case["f"]), tuple(case["data"]), routes=True, deep=True)
+    elif case["kind"] == "history":
+        run_history(rec, case["k"], case["mode"], list(case["events"]))
     elif case["kind"] == "oversize":
         check_oversize(rec, case["len"], case["idx"])
     elif case["kind"] == "reject":
